@@ -801,4 +801,4 @@ def search(ctx):
 
 
 def _search(ctx):
-    core.run_given(ctx, "histories", histories(30 if ctx.thorough else 15), lambda c: check(ctx, c), ctx.n(1000, 6000))
+    core.run_given(ctx, "histories", histories(30 if ctx.thorough else 15), lambda c: check(ctx, c), ctx.n(1000, 4000))
